@@ -10,7 +10,7 @@ for d in seeded/$1/; do
   start=$(date +%s)
   ./check "$prop" quick > "/tmp/allseeds_$name.log" 2>&1; rc=$?
   end=$(date +%s)
-  git -C /repo checkout -- .
+  git -C /repo checkout -- .; git -C /repo clean -fdq -e google_vizier.egg-info -- vizier
   (cd /verif && PYTHONPATH=/verif /venv/bin/python -m harness.gen_all >/dev/null 2>&1)
   /venv/bin/python tools/seedmeta.py "$name" "$prop" "$rc" "$((end-start))" "/tmp/allseeds_$name.log"
   echo "$name -> exit $rc ($((end-start)) s) $(grep -c 'no-failing-input-found' /tmp/allseeds_$name.log) nofail"
